@@ -186,8 +186,16 @@ func (env *Env) binary(e *Expr) Value {
 	a := env.eval(e.Args[0])
 	b := env.eval(e.Args[1])
 	switch e.Op {
+	case "===":
+		// structural identity (for strings: same backing array, offset, length)
+		return Value{T: B, Tm: Eq(a.Tm, b.Tm)}
 	case "==", "!=":
 		var t Term
+		if isNilVal(b) && a.T != nil && !isNilVal(a) {
+			b = Value{T: a.T, Tm: env.eng().zeroOf(a.T)}
+		} else if isNilVal(a) && b.T != nil && !isNilVal(b) {
+			a = Value{T: b.T, Tm: env.eng().zeroOf(b.T)}
+		}
 		if a.Tm.Sort != b.Tm.Sort && a.Ptr == nil && b.Ptr == nil {
 			panic(specErr("comparison of different sorts in %s (%s vs %s)", e, a.Tm.Sort, b.Tm.Sort))
 		}
@@ -241,6 +249,13 @@ func (env *Env) binary(e *Expr) Value {
 		}
 	}
 	panic(specErr("unsupported operator %s in %s", e.Op, e))
+}
+
+func isNilVal(v Value) bool {
+	if b, ok := v.T.(*types.Basic); ok && b.Kind() == types.UntypedNil {
+		return true
+	}
+	return false
 }
 
 func (env *Env) ident(name string) Value {
@@ -304,6 +319,11 @@ func (env *Env) ident(name string) Value {
 	// any loaded repo package by name
 	if p, ok := env.eng().ld.pkgByNm[name]; ok {
 		return Value{Origin: "pkg:" + p.PkgPath}
+	}
+	for _, tp := range env.eng().ld.allTypesPkgs() {
+		if tp.Name() == name {
+			return Value{Origin: "pkg:" + tp.Path()}
+		}
 	}
 	panic(specErr("unknown identifier %q", name))
 }
@@ -400,12 +420,12 @@ func (env *Env) local(name string) (Value, bool) {
 			}
 		}
 		if pick == nil {
-			panic(specErr("local %s is not yet allocated at this point", name))
+			return Value{}, false
 		}
 	}
 	pv, ok := fr.regs[pick]
 	if !ok {
-		panic(specErr("local %s is not yet allocated at this point", name))
+		return Value{}, false
 	}
 	return env.st.load(env.st.asPointer(pv)), true
 }
@@ -765,6 +785,55 @@ func (env *Env) call(e *Expr) Value {
 			v := env.eval(args[0])
 			T := env.resolveType(args[1].String())
 			return Value{T: B, Tm: Eq(IfType(v.Tm), IntLit(int64(eng.typeID(T))))}
+		case "ref":
+			v := env.eval(args[0])
+			if isSlice(v.T) {
+				return Value{T: mathInt, Tm: SlRef(v.Tm)}
+			}
+			t, _ := env.st.tryPtrTerm(v)
+			return Value{T: mathInt, Tm: t}
+		case "off":
+			v := env.eval(args[0])
+			if isSlice(v.T) {
+				return Value{T: mathInt, Tm: SlOff(v.Tm)}
+			}
+			return Value{T: mathInt, Tm: StrOff(v.Tm)}
+		case "key":
+			v := env.eval(args[0])
+			if env.inQuant > 0 {
+				// no pairwise key axioms for terms with bound variables (congruence on the Str term suffices)
+				return Value{T: mathInt, Tm: env.st.uf("skey", SInt, v.Tm)}
+			}
+			return Value{T: mathInt, Tm: env.st.strKey(v.Tm)}
+		case "has":
+			m := env.eval(args[0])
+			k := env.eval(args[1])
+			mt := types.Unalias(m.T).Underlying().(*types.Map)
+			return Value{T: B, Tm: env.st.mapHas(m, k, mt)}
+		case "rawhas":
+			m := env.eval(args[0])
+			k := env.evalInt(args[1])
+			mt := types.Unalias(m.T).Underlying().(*types.Map)
+			dom, _, _, _ := env.st.mapHeaps(mt)
+			return Value{T: B, Tm: And(Ne(m.Tm, IntLit(0)), Select(Select(dom, m.Tm), k))}
+		case "rawget":
+			m := env.eval(args[0])
+			k := env.evalInt(args[1])
+			mt := types.Unalias(m.T).Underlying().(*types.Map)
+			_, val, _, _ := env.st.mapHeaps(mt)
+			return Value{T: mt.Elem(), Tm: Select(Select(val, m.Tm), k)}
+		case "as":
+			// as(x, T): payload of interface x viewed as T
+			v := env.eval(args[0])
+			T := env.resolveType(args[1].String())
+			s := eng.sortOf(T)
+			switch s {
+			case SInt:
+				return Value{T: T, Tm: IfVal(v.Tm)}
+			case SBool:
+				return Value{T: T, Tm: Eq(IfVal(v.Tm), IntLit(1))}
+			}
+			return Value{T: T, Tm: env.st.uf("iunbox_"+sanitize(string(s)), s, IfVal(v.Tm))}
 		case "ncalls":
 			// ghost call counter of a func-valued field or callee key
 			return env.ncalls(args[0])
